@@ -570,6 +570,21 @@ func (e *Engine) addEnvIntrinsics() {
 		nt := nativeTime(sec.(uint64), ns).Add(time.Duration(d))
 		return mkTime(uint64(nt.Unix()+unixToInternal), uint64(nt.Nanosecond()))
 	}
+	in["(time.Time).AddDate"] = func(c *callCtx) Value {
+		sec, ns := c.s.timeParts(c.args[0])
+		su, ok := sec.(uint64)
+		y, ok1 := c.args[1].(uint64)
+		m, ok2 := c.args[2].(uint64)
+		d, ok3 := c.args[3].(uint64)
+		if !ok || !ok1 || !ok2 || !ok3 {
+			c.s.unsupported("Time.AddDate on a symbolic time or with symbolic arguments")
+		}
+		if loc, isPtr := c.args[0].(Agg)[2].(Ptr); !isPtr || loc.ID != 0 {
+			c.s.unsupported("Time.AddDate outside UTC")
+		}
+		nt := nativeTime(su, ns).AddDate(int(int64(y)), int(int64(m)), int(int64(d)))
+		return mkTime(uint64(nt.Unix()+unixToInternal), uint64(nt.Nanosecond()))
+	}
 	cmpTime := func(c *callCtx, lt bool) Value {
 		s1, n1 := c.s.timeParts(c.args[0])
 		s2, n2 := c.s.timeParts(c.args[1])
